@@ -39,9 +39,22 @@ type Res struct {
 	Kind   string            `json:"kind"`
 	Name   string            `json:"name"`
 	Fields map[string]string `json:"fields,omitempty"` // d:<k> l:<k> a:<k>
+	// Namespace (C07, optional): metadata.namespace of the document; "" = the release namespace.
+	// Only meaningful on a sim.Server with ByNS set.
+	Namespace string `json:"ns,omitempty"`
 }
 
-func (r Res) Key() string { return r.Kind + "/" + r.Name }
+// Key is Kind/name in the release namespace, <namespace>/Kind/name elsewhere.
+func (r Res) Key() string { return sim.NSKey(r.Namespace, r.Kind, r.Name) }
+
+// ModelKind is the kind under which the resource appears in the Coq model (keys are Kind/name
+// there): a resource outside the release namespace is spelled <namespace>/Kind.
+func (r Res) ModelKind() string {
+	if r.Namespace == "" || r.Namespace == RelNS {
+		return r.Kind
+	}
+	return r.Namespace + "/" + r.Kind
+}
 
 type Hook struct {
 	Res      Res      `json:"res"`
@@ -154,6 +167,9 @@ func resYAML(r Res, extraAnn map[string]string) string {
 	o := sim.Object(r.Kind, r.Name, r.Fields)
 	md := o["metadata"].(map[string]interface{})
 	delete(md, "namespace")
+	if r.Namespace != "" {
+		md["namespace"] = r.Namespace
+	}
 	if len(extraAnn) > 0 {
 		a, _ := md["annotations"].(map[string]interface{})
 		if a == nil {
@@ -192,6 +208,7 @@ func parseRes(doc string) (Res, map[string]string, bool) {
 	kind, _ := o["kind"].(string)
 	md, _ := o["metadata"].(map[string]interface{})
 	name, _ := md["name"].(string)
+	ns, _ := md["namespace"].(string)
 	f := sim.Fields(o)
 	hookAnn := map[string]string{}
 	for k, v := range f {
@@ -199,7 +216,7 @@ func parseRes(doc string) (Res, map[string]string, bool) {
 			hookAnn[k[2:]] = v // kept in the fields too: the hook object in the cluster carries them
 		}
 	}
-	return Res{Kind: kind, Name: name, Fields: f}, hookAnn, kind != ""
+	return Res{Kind: kind, Name: name, Fields: f, Namespace: ns}, hookAnn, kind != ""
 }
 
 // ParseManifest turns a release manifest into the ordered resource list.
@@ -654,9 +671,18 @@ func (r *Runner) RunOp(op *Op) (so StepObs) {
 	return
 }
 
+// PutRes places an object in the store (out-of-band), in its namespace when it names one.
+func (r *Runner) PutRes(x Res) {
+	if x.Namespace != "" {
+		r.Srv.PutNS(x.Namespace, x.Kind, x.Name, x.Fields)
+		return
+	}
+	r.Srv.Put(x.Kind, x.Name, x.Fields)
+}
+
 func (r *Runner) Run(h History) Obs {
 	for _, x := range h.Init {
-		r.Srv.Put(x.Kind, x.Name, x.Fields)
+		r.PutRes(x)
 	}
 	var o Obs
 	for _, s := range h.Steps {
@@ -665,7 +691,7 @@ func (r *Runner) Run(h History) Obs {
 			o.Steps = append(o.Steps, r.RunOp(s.Op))
 		case s.Edit != nil:
 			if s.Edit.Set != nil {
-				r.Srv.Put(s.Edit.Set.Kind, s.Edit.Set.Name, s.Edit.Set.Fields)
+				r.PutRes(*s.Edit.Set)
 			} else {
 				r.Srv.Remove(s.Edit.Del)
 			}
